@@ -20,6 +20,8 @@ pub enum PackFileErrorKind {
     ReadingBinaryRepresentationFailed(binrw::Error),
     /// Failed writing binary representation of the pack header: `{0:?}`
     WritingBinaryRepresentationFailed(binrw::Error),
+    /// The blob lengths in the pack header exceed the maximum pack size
+    BlobOffsetOverflow,
 }
 
 pub(crate) type PackFileResult<T> = Result<T, PackFileErrorKind>;
@@ -235,7 +237,9 @@ impl PackHeader {
                 Err(err) if err.is_eof() => break,
                 Err(err) => return Err(PackFileErrorKind::ReadingBinaryRepresentationFailed(err)),
             };
-            offset += blob.location.length;
+            offset = offset
+                .checked_add(blob.location.length)
+                .ok_or(PackFileErrorKind::BlobOffsetOverflow)?;
             blobs.push(blob);
         }
         Ok(Self(blobs))
